@@ -44,6 +44,12 @@ def check(ctx):
     # ---- C10.cover ------------------------------------------------------------------------------------------------------
     want = {'P-STS': 'check_bindings', 'P-MTS-plain': 'check_bindings', 'P-MTS-multiclient': 'FinalConstruct',
             'R-STS': 'check_bindings', 'R-MTS': 'check_bindings'}
+    # a filter on the port loops that no port kind decides depends on other model data (e.g. on the events of the
+    # port's interface): ports for which it is false get no check at all
+    for src, cnd in _data_dependent_filters(w, contents):
+        run.add('C10.cover', MOD, 'create_final_construct_fn', f'check loop {src.var!r} in {src.base!r} filtered by {cnd!r}'[:220], False,
+                f'the binding check is emitted only for ports satisfying `{cnd!r}`: an exposed port for which this is false is '
+                f'never checked, an unbound event of it goes unnoticed')
     for kind in PORT_KINDS:
         stmts, problems = w.port_statements('create_final_construct_fn', kind, val=contents)
         for p in problems:
@@ -106,6 +112,34 @@ def check(ctx):
     # ---- C10.selector (clang AST of the instantiated support header) -----------------------------------------------------------
     from ..embedded_cxx import selector_rules
     selector_rules(ctx, 'C10')
+
+
+def _data_dependent_filters(w, contents):
+    """Remove (in place) the conjuncts of port-loop filters that are undecided for every port kind; return them."""
+    from ..links import collect_loops, is_port_src
+    from ..template import Cond
+    out = []
+    seen = set()
+    for lp in collect_loops(w.ev, contents, is_port_src):
+        for src in [lp.src] + [fr.src for fr in lp.frames if fr.kind == 'rep' and is_port_src(fr.src)]:
+            if id(src) in seen:
+                continue
+            seen.add(id(src))
+            new_filters = []
+            for f in src.filters:
+                conj = list(f.args) if f.op == 'and' else [f]
+                keep = []
+                for c in conj:
+                    decided = any(w.scenario('create_final_construct_fn', kind=k, has_multiclient=(k == 'P-MTS-multiclient')).decide(c)
+                                  is not None for k in PORT_KINDS)
+                    if decided:
+                        keep.append(c)
+                    else:
+                        out.append((src, c))
+                if keep:
+                    new_filters.append(keep[0] if len(keep) == 1 else Cond('and', tuple(keep)))
+            src.filters[:] = new_filters
+    return out
 
 
 def check_thorough(ctx):
